@@ -65,6 +65,7 @@ func cmdCheck(args []string) int {
 	debug := fs.Bool("debug", false, "panic on internal errors")
 	verbose := fs.Bool("v", false, "list every obligation")
 	noEvidence := fs.Bool("no-evidence", false, "do not write the evidence file")
+	noReplay := fs.Bool("no-replay", false, "do not replay counterexamples on the real code")
 	outDir := fs.String("out", "", "output directory for replay files (default <verif>/out/<property>)")
 	fs.Parse(args)
 	if *tier == "" {
@@ -187,6 +188,7 @@ func cmdCheck(args []string) int {
 	known := loadKnown(filepath.Join(*verif, "known_findings.json"))
 	// report
 	exit := 0
+	replaysDone := 0
 	violations := 0
 	nObl, nDis := 0, 0
 	byBackend := map[string]int{}
@@ -278,9 +280,14 @@ func cmdCheck(args []string) int {
 			violations++
 			exit = 1
 			why := "obligation not discharged: " + o.Result.Status
+			// try to confirm the counterexample on the real code (a few per run: each replay compiles a test)
+			if replaysDone < 4 && !*noReplay {
+				replaysDone++
+				o.Replay = replayObligation(o, *repo, od)
+			}
 			rp := writeReplay(od, *prop, o, why)
 			suffix := ""
-			if o.Result.Status != "sat" || !replayConfirmed(o) {
+			if o.Replay == nil || !o.Replay.Confirmed {
 				suffix = " no-failing-input-found"
 			}
 			fmt.Printf("VIOLATION property=%s replay=%s%s\n", *prop, rp, suffix)
@@ -425,6 +432,14 @@ func writeReplay(dir, prop string, o *Obligation, why string) string {
 		"goal":       truncate(o.Goal.S, 4000),
 		"smt_script": filepath.Join(dir, sanitizeFile(o.Name)+".smt2"),
 		"note":       o.HeapNote,
+	}
+	if o.Replay != nil {
+		m["replay_on_real_code"] = o.Replay
+		if !o.Replay.Confirmed {
+			m["no_failing_input_found"] = o.Replay.Reason
+		}
+	} else {
+		m["no_failing_input_found"] = "no replay was attempted for this obligation"
 	}
 	js, _ := json.MarshalIndent(m, "", " ")
 	os.WriteFile(rp, js, 0o644)
